@@ -3,6 +3,7 @@ import RbV.Ref.PoaCheck
 import RbV.Ref.PoaAccept
 import RbV.Lemmas.NWIdentity
 import RbV.Lemmas.PoaChain
+import RbV.Lemmas.PoaGrow
 /-!
 # C16 — partial-order alignment: exact on linear graphs, graph stays a growing DAG
 
@@ -110,6 +111,23 @@ references and queries.  The driver evaluates `chainScore` next to the observed 
 theorem chain_dp_is_optimum (sc : Sc) (x y : List Nat) : Poa.Model.chainScore sc x y = nwBest sc x y :=
   Poa.Model.chainScore_eq_nwBest sc x y
 
+/-- the mirror model of `Poa::add_alignment` only grows the graph — for every graph, every operation list
+(any alignment mode, valid or not) and every query: old labels kept, every edge kept, no total edge weight
+decreased, and at most one new node per operation that consumes a query symbol.  By induction over a history
+this is the "growing" half of the graph clause for all histories of the model; the driver compares the
+model's result with the real dump after every `add_to_graph` (`drift-add`). -/
+theorem model_add_only_grows (g : Poa.Model.G) (ops : List POp) (seq : List Nat) :
+    Extends g.labels g.es (Poa.Model.addAlignment g ops seq).labels (Poa.Model.addAlignment g ops seq).es ∧
+    (Poa.Model.addAlignment g ops seq).labels.length ≤ g.labels.length + Poa.Model.consuming ops :=
+  Poa.Model.addAlignment_grows g ops seq
+
+/-- … and along the identity alignment `Match(None), Match(0,1), Match(1,2), …` (the unique optimum under
+`identity_is_unique_optimum`) re-adding the reference creates no node, whatever the edge weights are -/
+theorem model_identity_readdition_keeps_nodes (x : List Nat) (es : Poa.Model.WEdges)
+    (hhead : x.getD ((Poa.Model.topo x.length es).headD 0) 0 = x.getD 0 0) :
+    (Poa.Model.addAlignment { labels := x, es := es } (Poa.Model.idOps x.length) x).labels = x :=
+  Poa.Model.addAlignment_identity_labels x es hhead
+
 /-! ## Non-vacuity: the hypotheses are met by concrete non-trivial inputs -/
 
 def exSc : Sc := { w := fun a b => if a = b then 1 else -1, gap := -1 }
@@ -120,6 +138,10 @@ example : score exSc [65, 67, 71] [65, 71] [.mat, .del, .mat] = some 1 := by dec
 example : acceptGlobal exSc [65, 67, 71] [65, 71] [.m none, .d (some (0, 2)), .m (some (1, 2))] 1 = true := by decide
 example : acceptGlobal exSc [65, 67, 71] [65, 71] [.m none, .m (some (0, 1)), .d (some (1, 3))] 1 = false := by decide
 example : Poa.Model.chainScore exSc [71, 65, 84, 84, 65, 67, 65] [71, 67, 65, 84, 71, 67, 85] = 0 := by decide
+example : (Poa.Model.addAlignment { labels := [65, 67, 71], es := [(0, 1, 2), (1, 2, 2)] } (Poa.Model.idOps 3) [65, 67, 71]).es
+    = [(0, 1, 3), (1, 2, 3)] := by decide
+example : (Poa.Model.addAlignment { labels := [65, 67, 71], es := [(0, 1, 1), (1, 2, 1)] }
+    [.m none, .i (some 0), .m (some (0, 1)), .d (some (1, 3))] [65, 84, 71]).labels = [65, 67, 71, 84, 71] := by decide
 -- a DAG with a bubble is accepted, a 3-cycle is not
 example : isAcyclic 4 [(0, 1), (1, 2), (0, 3), (3, 2)] = true := by decide
 example : isAcyclic 3 [(0, 1), (1, 2), (2, 0)] = false := by decide
